@@ -655,6 +655,11 @@ def _c13_stuck(sc, obs, v):
 # ------------------------------------------------------------------------------------------ C15
 def monitor_c15(sc, obs):
     v = []
+    for i, o in enumerate(obs):
+        if o.get('stored'):
+            # the tables the library keeps hold exactly the datapoints that were reported, one per occurrence, in order
+            _bad(v, 'C15/stored-data', 'op %d %s: %s' % (i, o['op'], o['stored']))
+            break
     _sink_counts(sc, obs, v, 'C15/received-parts')
     bp = obs[-1].get('budget_probe') if obs else None
     if bp and bp['produced'] != bp['supplied_records']:
